@@ -208,6 +208,7 @@ type Sched struct {
 	shadow  map[unsafe.Pointer]*shadowLoc
 	diverge string
 	spins   int
+	quiet   bool
 }
 
 // S is the scheduler of the execution in progress (one per process).
@@ -575,6 +576,9 @@ func (s *Sched) pick() *G {
 
 // choice records (or replays) one choice point.
 func (s *Sched) choice(n int, kind uint8, preempt bool) int {
+	if s.quiet {
+		return 0
+	}
 	i := len(s.points)
 	c := 0
 	if i < len(s.prefix) {
@@ -1171,4 +1175,13 @@ func GID() int {
 		return -1
 	}
 	return S.cur.ID
+}
+
+// SetQuiet switches choice recording off (every choice takes its default and is not a branching
+// point) or back on. Used for long deterministic prefixes such as 254 exchanges before a wrap.
+func SetQuiet(q bool) {
+	if inert() {
+		return
+	}
+	S.quiet = q
 }
